@@ -283,6 +283,10 @@ fn check_ref(c: &Case, ctx: &Ctx) -> Outcome {
     let r: Result<(usize, usize), Outcome> = (|| {
         must_ok(&build(ctx, &dir, "x", &m.samples, c.k, true, 1), "ska build")?;
         cli::write_fasta(&dir.join("ref.fa"), &["refname".to_string()], &[rseq.clone()], if c.ref_wrap { Some(60) } else { None });
+        // Windows line endings in every fourth reference
+        if (c.lead as usize + c.n_samples) % 4 == 0 {
+            cli::to_crlf(&dir.join("ref.fa"));
+        }
         let ref_file = match c.ref_gz % 3 {
             0 => "ref.fa",
             g => {
